@@ -185,7 +185,10 @@ class PianorollSequence(events_lib.EventSequence):
         (quantized_sequence.total_quantized_steps - start_step,
          max_pitch - min_pitch + 1), bool)
 
-    for note in quantized_sequence.notes:
+    # Paint notes in order of their start step so that the result (in particular
+    # which repeated notes are split) does not depend on storage order.
+    for note in sorted(quantized_sequence.notes,
+                       key=lambda note: note.quantized_start_step):
       if note.quantized_start_step < start_step:
         continue
       if not min_pitch <= note.pitch <= max_pitch:
